@@ -6,11 +6,11 @@ from rules import selector, misc
 
 def run(tier):
     run, fx = start("C19", tier,
-        "T10/T2: an insert on a per-descriptor limit table may guard a panic only in the lazy fill; T9/T3: every table keyed by descriptor number is "
+        "T10/T2: no write to a per-descriptor limit table guards a panic (setsockopt may repeat, two threads may both miss in the lazy fill); T9/T3: every table keyed by descriptor number is "
         "cleared from the hooked close before the inner close (directly on all paths, or through del_event); T5/T6: limit direction per wrapper, "
         "setsockopt update only under r == 0, SOL_SOCKET and the matching option, value through get_time_limit (panic-free, zero means unlimited).",
         ["core/default"],
-        not_decided=["the option value the kernel actually holds", "two threads racing on the first use of one descriptor (lazy fill)"],
+        not_decided=["the option value the kernel actually holds"],
         assumptions=["SOL_SOCKET == 1, SO_RCVTIMEO == 20, SO_SNDTIMEO == 21 on this target"])
     f = fx["core/default"]
     selector.no_panic_rule(run, f, "C19-NO-PANIC-ON-RESET")
@@ -19,4 +19,6 @@ def run(tier):
     misc.time_limit_rule(run, f, "C19-LIMIT-VALUE")
     # clauses added for the wave-2 seeds (rules/wave2.py; DESIGN 12a)
     wave3.limit_writers_rule(run, f, "C19-WRITERS")
+    # clauses added for the wave-2 seeds (rules/wave2.py; DESIGN 12a)
+    wave3.fill_option_rule(run, f, "C19-FILL-OPTION")
     return run.finish()
